@@ -10,10 +10,11 @@ ATTS = [fmtlib.PLAIN, fmtlib.RED, fmtlib.BOLD_ON_BLUE]
 
 class C16(PureCheck):
     pid = "C16"
+    warm_every = 3
     rule = ("str and FmtStr inputs: layouts of <=2 runs of length 0..3 (quick, + sampled 3-run layouts with runs up to "
             "length 4) / <=3 runs of length 0..3 sampled 1-in-4 + <=2 runs of length 0..4 (thorough) over "
             "{x, y, space, tab, newline} x {plain, red, bold+on_blue} - formatting changing inside words and inside "
-            "whitespace, leading/trailing/multiple whitespace, no words at all - and columns 1..6; validated by TLC against "
+            "whitespace, empty runs with their own formatting inside/at the edge of whitespace and words, leading/trailing/multiple whitespace, no words at all - and columns 1..6; validated by TLC against "
             "the greedy reference wrap of Wrap.tla. distinct_nontrivial = distinct (layout, columns) with >=2 words or a "
             "word longer than the line")
     exhaustive = {"quick": False, "thorough": False}
@@ -31,6 +32,14 @@ class C16(PureCheck):
             runs4 = [[list(t), list(a)] for t in fmtlib.texts_upto(ALPHA, 4, 1) for a in ATTS]
             for _ in range(1500):
                 pool.append([rng.choice(runs4) for _ in range(rng.choice([2, 3]))])
+        # empty runs (with their own formatting) inside and at the edges of whitespace and of words
+        for a1 in ATTS:
+            for a0 in ATTS:
+                for left in ([120, 32], [120, 9], [32], [120, 121], [120, 32, 32]):
+                    for right in ([32, 121], [121], [32, 32, 121, 32, 120], [10, 121]):
+                        pool.append([[list(left), list(a1)], [[], list(a0)], [list(right), list(a1)]])
+                        if a0 != a1:
+                            pool.append([[list(left), list(a1)], [[], list(a0)], [list(right), list(a0)]])
         k = 0
         for f in pool:
             for c in range(1, 7):
